@@ -105,6 +105,24 @@ def _numeric(e):
     return False
 
 
+def _norm_parts(parts):
+    """string pieces: a data piece that is itself a string literal is text; adjacent text pieces are one"""
+    out = []
+    for x in parts:
+        if isinstance(x, tuple):
+            try:
+                e = ast.parse(x[1], mode='eval').body
+            except SyntaxError:
+                e = None
+            if isinstance(e, ast.Constant) and isinstance(e.value, str):
+                x = e.value
+        if isinstance(x, str) and out and isinstance(out[-1], str):
+            out[-1] += x
+        else:
+            out.append(x)
+    return out
+
+
 class _Canon(ast.NodeTransformer):
     def visit_Call(self, node):
         self.generic_visit(node)
@@ -137,6 +155,10 @@ class _Canon(ast.NodeTransformer):
                 and len(node.right.args) == 1 and isinstance(node.right.args[0], ast.Tuple):
             node = ast.BinOp(left=node.left, op=node.op, right=self.visit_Call(copy.deepcopy(node.right)))
         parts = strparts(node)
+        if parts is not None:
+            parts = _norm_parts(parts)
+            if len(parts) == 1 and isinstance(parts[0], str):
+                return ast.Constant(value=parts[0])
         if parts is not None and len(parts) > 1 and any(isinstance(x, str) for x in parts):
             txt = 'S[' + ' '.join(repr(x) if isinstance(x, str) else '{%s}' % canon(ast.parse(x[1], mode='eval').body) for x in parts) + ']'
             return ast.Name(id=txt, ctx=ast.Load())
@@ -161,6 +183,9 @@ class _Canon(ast.NodeTransformer):
     def visit_JoinedStr(self, node):
         parts = strparts(node)
         if parts is not None:
+            parts = _norm_parts(parts)
+            if len(parts) == 1 and isinstance(parts[0], str):
+                return ast.Constant(value=parts[0])
             txt = 'S[' + ' '.join(repr(x) if isinstance(x, str) else '{%s}' % canon(ast.parse(x[1], mode='eval').body) for x in parts) + ']'
             return ast.Name(id=txt, ctx=ast.Load())
         return node
